@@ -99,4 +99,129 @@ theorem evalPure1_val (E : Ext α) (hE : ExtOK E) (ax : Axis α) (nm : Norm α) 
     simp only [Option.map_some, Out.val.injEq] at h'
     exact ⟨c, (solves_system1 ax i _ c).mp (hE.solve _ _ c hs), h'.symm⟩
 
+theorem isSol2_congr (ax ay : Axis α) (cell : Nat × Nat) (D D' : Nat → Nat → α) (c : Nat → α)
+    (h : ∀ a b, a < 4 → b < 4 → D a b = D' a b) (hs : IsSol2 ax ay cell D c) : IsSol2 ax ay cell D' c := by
+  intro l hl
+  have := hs l hl
+  rw [row2_fst ax ay cell D' D, this]
+  interval_cases l <;> simp [row2, h]
+
+theorem isSol3_congr (ax ay az : Axis α) (cell : Nat × Nat × Nat) (D D' : Nat → Nat → Nat → α) (c : Nat → α)
+    (h : ∀ a b k, a < 4 → b < 4 → k < 4 → D a b k = D' a b k) (hs : IsSol3 ax ay az cell D c) :
+    IsSol3 ax ay az cell D' c := by
+  intro l hl
+  have := hs l hl
+  rw [row3_fst ax ay az cell D' D, this]
+  interval_cases l <;> simp [row3, h]
+
+/-! ### polynomial evaluation only reads its 4^d coefficients and is linear in them -/
+
+theorem poly1_congr (c c' : Nat → α) (q : α) (h : ∀ k, k < 4 → c k = c' k) : poly1 c q = poly1 c' q := by
+  simp [poly1, h]
+theorem poly2_congr (c c' : Nat → α) (q : α × α) (h : ∀ k, k < 16 → c k = c' k) : poly2 c q = poly2 c' q := by
+  simp [poly2, h]
+theorem poly3_congr (c c' : Nat → α) (q : α × α × α) (h : ∀ k, k < 64 → c k = c' k) : poly3 c q = poly3 c' q := by
+  simp [poly3, cub, h]
+
+theorem poly1_lin_e0 (c : Nat → α) (t u : α) (q : α) : poly1 (fun n => t * c n + u * e0 n) q = t * poly1 c q + u := by
+  simp [poly1, e0]; ring
+theorem poly2_lin_e0 (c : Nat → α) (t u : α) (q : α × α) :
+    poly2 (fun n => t * c n + u * e0 n) q = t * poly2 c q + u := by
+  simp [poly2, e0]; ring
+theorem poly3_lin_e0 (c : Nat → α) (t u : α) (q : α × α × α) :
+    poly3 (fun n => t * c n + u * e0 n) q = t * poly3 c q + u := by
+  simp [poly3, cub, e0]; ring
+
+theorem poly2_embed (m : Nat → Nat → α) (x y : α) : poly2 (embed2 m) (x, y) = ml2 m x y := by
+  simp [poly2, embed2, ml2]; ring
+theorem poly3_embed (m : Nat → Nat → Nat → α) (x y z : α) : poly3 (embed3 m) (x, y, z) = ml3 m x y z := by
+  simp [poly3, cub, embed3, ml3]; ring
+
+/-! ### 2-D -/
+
+def d2 (ax ay : Axis α) (nm : Norm α) (f : α × α → α) (cell : Nat × Nat) : Nat → Nat → α :=
+  fun a b => ((stencil2 cell).map (fun u => nm.apply (f (ax.dom u.1, ay.dom u.2)))).getD (4 * a + b) 0
+
+theorem nodeVal2 (E : Ext α) (ax ay : Axis α) (nm : Norm α) (f : α × α → α) :
+    nodeVal (spec2 E ax ay nm) (envOf f nm) = fun u => nm.apply (f (ax.dom u.1, ay.dom u.2)) := by
+  funext u; simp [nodeVal, envOf, spec2]
+
+theorem d2_eq (ax ay : Axis α) (nm : Norm α) (f : α × α → α) (i' j' a b : Nat) (ha : a < 4) (hb : b < 4) :
+    d2 ax ay nm f (i' + 1, j' + 1) a b = nm.apply (f (ax.dom (i' + a), ay.dom (j' + b))) := by
+  interval_cases a <;> interval_cases b <;> simp [d2, stencil2, stencil1, Nat.add_assoc]
+
+theorem cellOf2_some (ax ay : Axis α) (p : α × α) (cell : Nat × Nat) (h : cellOf2 ax ay p = some cell) :
+    cellOf ax p.1 = some cell.1 ∧ cellOf ay p.2 = some cell.2 := by
+  unfold cellOf2 at h
+  cases hx : cellOf ax p.1 <;> cases hy : cellOf ay p.2 <;> simp [hx, hy] at h
+  subst h; exact ⟨rfl, rfl⟩
+
+theorem evalPure2_val (E : Ext α) (hE : ExtOK E) (ax ay : Axis α) (nm : Norm α) (f : α × α → α) (nbe : Bool)
+    (p : α × α) (v : α) (cell : Nat × Nat) (hc : cellOf2 ax ay p = some cell)
+    (h : evalPure (spec2 E ax ay nm) (envOf f nm) nbe p = .val v) :
+    ∃ c, IsSol2 ax ay cell (d2 ax ay nm f cell) c ∧ v = poly2 (finish2 E ax ay nm c) p := by
+  have h' := h
+  unfold evalPure at h'
+  rw [show (spec2 E ax ay nm).locate p = some cell from hc] at h'
+  dsimp only at h'
+  rw [nodeVal2] at h'
+  simp only [spec2, build2] at h'
+  generalize hs : E.solve
+    (system2 ax ay cell fun a b =>
+      ((stencil2 cell).map fun u => nm.apply (f (ax.dom u.1, ay.dom u.2))).getD (4 * a + b) 0).1
+    (system2 ax ay cell fun a b =>
+      ((stencil2 cell).map fun u => nm.apply (f (ax.dom u.1, ay.dom u.2))).getD (4 * a + b) 0).2 = r at h'
+  cases r with
+  | none => simp at h'
+  | some c =>
+    simp only [Option.map_some, Out.val.injEq] at h'
+    exact ⟨c, (solves_system2 ax ay cell _ c).mp (hE.solve _ _ c hs), h'.symm⟩
+
+/-! ### 3-D -/
+
+def d3 (ax ay az : Axis α) (nm : Norm α) (f : α × α × α → α) (cell : Nat × Nat × Nat) : Nat → Nat → Nat → α :=
+  fun a b k => ((stencil3 cell).map (fun u => nm.apply (f (ax.dom u.1, ay.dom u.2.1, az.dom u.2.2)))).getD
+    (16 * a + 4 * b + k) 0
+
+theorem nodeVal3 (E : Ext α) (ax ay az : Axis α) (nm : Norm α) (f : α × α × α → α) :
+    nodeVal (spec3 E ax ay az nm) (envOf f nm) = fun u => nm.apply (f (ax.dom u.1, ay.dom u.2.1, az.dom u.2.2)) := by
+  funext u; simp [nodeVal, envOf, spec3]
+
+theorem d3_eq (ax ay az : Axis α) (nm : Norm α) (f : α × α × α → α) (i' j' k' a b k : Nat) (ha : a < 4) (hb : b < 4)
+    (hk : k < 4) :
+    d3 ax ay az nm f (i' + 1, j' + 1, k' + 1) a b k =
+      nm.apply (f (ax.dom (i' + a), ay.dom (j' + b), az.dom (k' + k))) := by
+  interval_cases a <;> interval_cases b <;> interval_cases k <;> simp [d3, stencil3, stencil1, Nat.add_assoc]
+
+theorem cellOf3_some (ax ay az : Axis α) (p : α × α × α) (cell : Nat × Nat × Nat)
+    (h : cellOf3 ax ay az p = some cell) :
+    cellOf ax p.1 = some cell.1 ∧ cellOf ay p.2.1 = some cell.2.1 ∧ cellOf az p.2.2 = some cell.2.2 := by
+  unfold cellOf3 at h
+  cases hx : cellOf ax p.1 <;> cases hy : cellOf ay p.2.1 <;> cases hz : cellOf az p.2.2 <;> simp [hx, hy, hz] at h
+  subst h; exact ⟨rfl, rfl, rfl⟩
+
+theorem evalPure3_val (E : Ext α) (hE : ExtOK E) (ax ay az : Axis α) (nm : Norm α) (f : α × α × α → α) (nbe : Bool)
+    (p : α × α × α) (v : α) (cell : Nat × Nat × Nat) (hc : cellOf3 ax ay az p = some cell)
+    (h : evalPure (spec3 E ax ay az nm) (envOf f nm) nbe p = .val v) :
+    ∃ c, IsSol3 ax ay az cell (d3 ax ay az nm f cell) c ∧ v = poly3 (finish3 E ax ay az nm c) p := by
+  have h' := h
+  unfold evalPure at h'
+  rw [show (spec3 E ax ay az nm).locate p = some cell from hc] at h'
+  dsimp only at h'
+  rw [nodeVal3] at h'
+  simp only [spec3, build3] at h'
+  generalize hs : E.solve
+    (system3 ax ay az cell fun a b k =>
+      ((stencil3 cell).map fun u => nm.apply (f (ax.dom u.1, ay.dom u.2.1, az.dom u.2.2))).getD
+        (16 * a + 4 * b + k) 0).1
+    (system3 ax ay az cell fun a b k =>
+      ((stencil3 cell).map fun u => nm.apply (f (ax.dom u.1, ay.dom u.2.1, az.dom u.2.2))).getD
+        (16 * a + 4 * b + k) 0).2 = r at h'
+  cases r with
+  | none => simp at h'
+  | some c =>
+    simp only [Option.map_some, Out.val.injEq] at h'
+    exact ⟨c, (solves_system3 ax ay az cell _ c).mp (hE.solve _ _ c hs), h'.symm⟩
+
+
 end Cherab.Caching
